@@ -142,12 +142,13 @@ def sym_onview(E, p, kf):
     from . import programs
     from npstructures import RaggedArray
     R = E.concretize(E.int("R", 0, p["R"]))
-    lens = [E.int(f"l{r}", 0, p["L"]) for r in range(R)]
-    S = E.concretize(z3.Sum(lens) if lens else z3.IntVal(0))
+    lens = [E.concretize(E.int(f"l{r}", 0, p["L"])) for r in range(R)]      # shapes forked: the selected rows are then computed on plain lists
+    S = sum(lens)
     data = [E.int(f"d{q}", -50, 50) for q in range(S)]
     P = programs.ParamStore(E, B=2)
     case = dict(p=p, lens=lens, data=data, params=P.values)
-    od, of, oa = programs.on_view(RaggedArray, lens, data, "int64", p["pre"], _view_ops()[p["op"]], P)
+    conc_ = lambda t: (E.branch(t) if z3.is_bool(t) else E.concretize(t)) if z3.is_expr(t) else t
+    od, of, oa = programs.on_view(RaggedArray, lens, data, "int64", p["pre"], _view_ops()[p["op"]], P, conc=conc_)
     if od["k"] != of["k"]:
         return dict(goal=False, got=od, case=case)
     goal = specs.conj([specs.obs_goal(od, of) if od["k"] != "raise" else True, specs.obs_goal(oa, dict(k="ragged", flat=data, lens=lens, dtype="int64"))])
@@ -173,7 +174,10 @@ def jobs_onview(tier, seed):
         for pre in programs.VIEW_STEPS:
             if q and pre in ("colstepm2", "colslice_a") and op not in ("sum0", "concat", "cumsum"):
                 continue
-            out.append(dict(R=3, L=2 if q else 3, pre=pre, op=op))
+            if pre == "rowlist3":
+                out.append(dict(R=3, L=1 if q else 2, pre=pre, op=op))      # three symbolic row positions: 216 index triples per shape
+                continue
+            out.append(dict(R=3, L=2, pre=pre, op=op) if q else dict(R=3, L=3, pre=pre, op=op))
     return [dict(h="C09.onview", p=p) for p in out]
 
 
